@@ -39,6 +39,8 @@ func isBinKey(k string) bool { return strings.HasSuffix(k, "-bin") }
 
 func outcomeClass(c *Case, rec Rec) string {
 	switch {
+	case c.Script.Code == 0 && rec.Sent == 0:
+		return "ok-no-message"
 	case c.Script.Code == 0:
 		return "ok"
 	case rec.Sent == 0:
@@ -405,7 +407,32 @@ func check14(c *Case, o *Obs, rec Rec) (vs []viol, inconclusive string) {
 			}
 		}
 	}
-	checkSet(sc.Hdr, o.MDHdr, "header", oc+","+how)
+	hdrCls := oc + "," + how
+	if sc.DL != "" {
+		n := "many-writes"
+		switch len(sc.Chunks) {
+		case 0:
+			n = "no-write"
+		case 1:
+			n = "one-write"
+		}
+		hdrCls += ",httpbody-" + sc.DL + "," + n
+		// the body is the concatenation of what the handler wrote
+		if sc.Code == 0 && o.HTTP == 200 {
+			var want []byte
+			for i, k := range sc.Chunks {
+				want = append(want, dlPayload(i, k)...)
+			}
+			if !bytes.Equal(o.Body, want) {
+				add("download-body", "httpbody-"+sc.DL+","+n, fmt.Sprintf("the download carries %d bytes, the handler wrote %d", len(o.Body), len(want)))
+			}
+		}
+	}
+	if sc.HdrAt == "" {
+		// (metadata set once the writer is held / after the first write has no
+		// delivery obligation: the headers are committed by then)
+		checkSet(sc.Hdr, o.MDHdr, "header", hdrCls)
+	}
 	if !isHTTP && !blind {
 		checkSet(sc.Trl, o.MDTrl, "trailer", "custom-key")
 		if rec.Sent >= 1 {
@@ -713,7 +740,7 @@ func (g *c14Runner) binSweep(proto string, wide bool, vals [][]byte, class strin
 
 // RunC14 is the metadata fidelity check.
 func RunC14(r *mon.Run) {
-	r.Rule = "(in) requests carrying 1-6 custom headers (names over the HTTP token alphabet in mixed case, 1-3 values, '-bin' names with every byte string of length 0-1 (thorough: 0-2) plus boundary/random strings of length 3..500, each sent as padded and as unpadded base64) on HTTP transcoding, raw gRPC (in-process, h2c), grpc-go, gRPC-web binary/text (in-process, HTTP/1 socket) and the WebSocket handshake, plus a class that adds hop-by-hop headers (Connection, Keep-Alive, Proxy-Connection) on the HTTP/1 fronts, which must not become metadata, with the handler registered on the mux and with the same handler on a grpc.Server back-end proxied through RegisterConn; the handler's metadata.FromIncomingContext is compared with what was sent. (out) a scripted handler sets 0-4 header keys (SetHeader or SendHeader) and 0-4 trailer keys before / after its first reply, optionally one protocol-reserved key with a forged value, optionally with gzip-compressed messages (grpc-encoding, compressed and plain calls interleaved on the same mux), optionally keeps mutating / re-using the metadata.MD object it passed in (values overwritten in place, slices replaced, keys added, keys deleted, header MD refilled and passed to SetTrailer), then succeeds or fails before / after the first reply; the client (HTTP response headers - also for Twirp requests -, grpc-go Header/Trailer call options, gRPC-web headers + trailer frame) must see every non-reserved key with the values it had at the time of the call, byte-equal, no key added later, never the forged value, and the handler's real status; the gRPC-web trailer frame is checked strictly (every line key: value, lower-case token keys, no key beyond the status keys and the handler's trailer keys). Non-trivial = the scripted handler ran; distinct = (direction, protocol, codec, method, name/value class | outcome, header/trailer set shape, reserved key)"
+	r.Rule = "(in) requests carrying 1-6 custom headers (names over the HTTP token alphabet in mixed case, 1-3 values, '-bin' names with every byte string of length 0-1 (thorough: 0-2) plus boundary/random strings of length 3..500, each sent as padded and as unpadded base64) on HTTP transcoding, raw gRPC (in-process, h2c), grpc-go, gRPC-web binary/text (in-process, HTTP/1 socket) and the WebSocket handshake, plus a class that adds hop-by-hop headers (Connection, Keep-Alive, Proxy-Connection) on the HTTP/1 fronts, which must not become metadata, with the handler registered on the mux and with the same handler on a grpc.Server back-end proxied through RegisterConn; the handler's metadata.FromIncomingContext is compared with what was sent. (out) a scripted handler sets 0-4 header keys (SetHeader or SendHeader) and 0-4 trailer keys before / after its first reply, optionally one protocol-reserved key with a forged value, optionally with gzip-compressed messages (grpc-encoding, compressed and plain calls interleaved on the same mux), optionally keeps mutating / re-using the metadata.MD object it passed in (values overwritten in place, slices replaced, keys added, keys deleted, header MD refilled and passed to SetTrailer), then succeeds or fails before / after the first reply; HttpBody downloads through larking.AsHTTPBodyWriter and through HttpBody messages with 0 / 1 / many writes and metadata set before the writer is obtained, once it is held, or between writes; the client (HTTP response headers - also for Twirp requests -, grpc-go Header/Trailer call options, gRPC-web headers + trailer frame) must see every non-reserved key with the values it had at the time of the call, byte-equal, no key added later, never the forged value, and the handler's real status; the gRPC-web trailer frame is checked strictly (every line key: value, lower-case token keys, no key beyond the status keys and the handler's trailer keys). Non-trivial = the scripted handler ran; distinct = (direction, protocol, codec, method, name/value class | outcome, header/trailer set shape, reserved key)"
 	r.Floor = 120
 	env, err := newEnv()
 	if err != nil {
@@ -841,7 +868,7 @@ func RunC14(r *mon.Run) {
 	outcomes := []struct {
 		code    uint32
 		replies int
-	}{{0, 1}, {0, 2}, {5, 0}, {13, 0}, {3, 1}, {5, 2}}
+	}{{0, 1}, {0, 2}, {5, 0}, {13, 0}, {3, 1}, {5, 2}, {0, 0}}
 	nRandOut := r.Pick(120, 900)
 	mutations := []string{"overwrite", "replace", "add", "delete", "reuse"}
 	for _, target := range []string{"", "proxy"} {
@@ -935,6 +962,44 @@ func RunC14(r *mon.Run) {
 						c.Script.Hdr = genOutSet(rng, 1, used)
 						c.Script.Trl = append(genOutSet(rng, 1+rng.Intn(2), used), KV{K: "a-first", V: [][]byte{[]byte("sorts before grpc-status")}})
 						g.exec(c)
+					}
+				}
+			}
+			// HttpBody downloads: AsHTTPBodyWriter / HttpBody messages with 0, 1,
+			// many writes; metadata before the writer is obtained, once it is
+			// held, between writes; succeeding and failing
+			if v.proto == "http" || v.proto == "http-sock" {
+				for _, dl := range []struct{ mode, route, method string }{{"writer", "download", "Download"}, {"sendmsg", "download", "Download"}, {"sendmsg", "downloadu", "DownloadU"}} {
+					if dl.mode == "writer" && target == "proxy" {
+						continue // AsHTTPBodyWriter needs the HTTP stream of the mux itself
+					}
+					for _, chunks := range [][]int{nil, {0}, {1}, {300}, {5, 0, 70000, 1}} {
+						if dl.method == "DownloadU" && len(chunks) > 1 {
+							chunks = []int{chunks[0] + chunks[2]}
+						}
+						for _, at := range []string{"", "after-writer", "between"} {
+							if at == "between" && len(chunks) == 0 || at != "" && dl.method == "DownloadU" || at == "after-writer" && dl.mode != "writer" {
+								continue
+							}
+							for _, code := range []uint32{0, 5} {
+								for _, send := range []bool{false, true} {
+									c := &Case{Kind: "C14out", Proto: v.proto, Codec: "json", Method: dl.method, Class: "httpbody-download", Target: target,
+										Route: dl.route, ReqCT: "-", Accept: "-",
+										Script: Script{Code: code, Msg: "metadata case", DL: dl.mode, Chunks: chunks, HdrAt: at, SendHdr: send}}
+									if dl.method == "DownloadU" {
+										if code == 0 {
+											c.Script.Replies = 1
+										} else {
+											c.Script.Chunks = nil
+										}
+									}
+									used := map[string]bool{}
+									c.Script.Hdr = genOutSet(rng, 1+rng.Intn(3), used)
+									c.Script.Trl = genOutSet(rng, rng.Intn(2), used)
+									g.exec(c)
+								}
+							}
+						}
 					}
 				}
 			}
